@@ -141,6 +141,42 @@ func (fx *FnExec) extern(st *State, in *ssa.Call, fn *ssa.Function, args []Val, 
 	case "math.Exp2":
 		fx.trust("extern math.Exp2 = exp2 over the reals (A-REAL)")
 		k(st, []Val{{T: app("exp2", args[0].T), S: SReal, GT: types.Typ[types.Float64]}})
+	case "math/big.NewFloat":
+		fx.trust("extern math/big.NewFloat(x): fresh *big.Float whose value is x (ghost model BIGF: pointer -> real value; A-REAL)")
+		eng.regBig()
+		ref := fx.newRef(st)
+		eng.heapSet(st, bigFHeap, store(eng.heapGet(st, bigFHeap), ref, args[0].T))
+		k(st, []Val{{T: ref, S: SInt, GT: in.Type()}})
+	case "(*math/big.Float).SetInt":
+		fx.trust("extern (*big.Float).SetInt(x): the receiver's value becomes the value of x (rounding to the receiver's precision is not modelled, A-REAL); returns the receiver; modifies only the receiver")
+		eng.regBig()
+		fx.safety(st, "nil", fx.siteName(in)+".big-receiver", "(not (= "+args[0].T+" 0))")
+		fx.safety(st, "nil", fx.siteName(in)+".big-argument", "(not (= "+args[1].T+" 0))")
+		eng.heapSet(st, bigFHeap, store(eng.heapGet(st, bigFHeap), args[0].T, "(to_real "+sel(eng.heapGet(st, bigIHeap), args[1].T)+")"))
+		k(st, []Val{{T: args[0].T, S: SInt, GT: in.Type()}})
+	case "(*math/big.Float).MantExp":
+		fx.trust("extern (*big.Float).MantExp(mant): for a finite receiver x returns exp and sets mant with x = mant * 2^exp, 0.5 <= |mant| < 1 (mant = 0, exp = 0 for x = 0); stated for x >= 0 in logarithmic form log2 x = log2 mant + exp (A-REAL); modifies only mant")
+		eng.regBig()
+		fx.safety(st, "nil", fx.siteName(in)+".big-receiver", "(not (= "+args[0].T+" 0))")
+		fx.safety(st, "subset", fx.siteName(in)+".mant-nonnil", "(not (= "+args[1].T+" 0))")
+		fx.safety(st, "subset", fx.siteName(in)+".mant-distinct", "(not (= "+args[1].T+" "+args[0].T+"))")
+		h := eng.heapGet(st, bigFHeap)
+		x := eng.define(st, "bigx", SReal, sel(h, args[0].T))
+		m := eng.fresh(st, "mant", SReal)
+		e := eng.fresh(st, "exp", SInt)
+		st.assume("(=> (= " + x + " 0.0) (and (= " + m + " 0.0) (= " + e + " 0)))")
+		st.assume("(=> (> " + x + " 0.0) (and (<= 0.5 " + m + ") (< " + m + " 1.0) (= (log2 " + x + ") (+ (log2 " + m + ") (to_real " + e + ")))))")
+		st.assume("(and (<= (- 2147483648) " + e + ") (<= " + e + " 2147483647))")
+		eng.heapSet(st, bigFHeap, store(h, args[1].T, m))
+		k(st, []Val{{T: e, S: SInt, GT: types.Typ[types.Int]}})
+	case "(*math/big.Float).Float64":
+		fx.trust("extern (*big.Float).Float64(): the receiver's value as a float64 (rounding not modelled, A-REAL) and an accuracy flag; pure")
+		eng.regBig()
+		fx.safety(st, "nil", fx.siteName(in)+".big-receiver", "(not (= "+args[0].T+" 0))")
+		acc := eng.fresh(st, "acc", SInt)
+		st.assume("(and (<= (- 1) " + acc + ") (<= " + acc + " 1))")
+		rt := in.Type().(*types.Tuple)
+		k(st, []Val{{T: sel(eng.heapGet(st, bigFHeap), args[0].T), S: SReal, GT: rt.At(0).Type()}, {T: acc, S: SInt, GT: rt.At(1).Type()}})
 	case "sort.Strings":
 		fx.trust("extern sort.Strings(xs): permutes xs in place into strictly-or-equal increasing byte order; modifies only xs's elements")
 		xs := args[0]
